@@ -4,7 +4,7 @@ import json, os, shutil, subprocess, time, re
 from common import *
 
 LABT = os.path.join(WORK, "lab-target")
-DROPPABLE = {"H", "O3", "A16", "Z", "Z8"}
+DROPPABLE = {"H", "O3", "A16", "Z", "Z8", "H40"}
 ZST = {"Z", "Z8"}
 
 
@@ -277,6 +277,24 @@ def oracles(req, ev, access, prims):
                     hits.append(("C15", f"malformed input ({fmt} {kind} at {k}) was accepted: {res}", li))
                 elif sorted(drops) != sorted(want):
                     hits.append(("C15", f"rejected {fmt} input ({kind} at {k}): destroyed {sorted(drops)}, already decoded were {sorted(want)}", li))
+            elif op == "clonefrombomb":
+                dv, dst = regs[int(t[1])]; sv, sst = regs[int(t[2])]; k = int(t[3])
+                ids = m["variants"][dv]
+                # the fields before the failing one are assigned (previous values destroyed exactly once); the failing field
+                # and the later ones keep their contents; nothing else is destroyed
+                want = sorted(lab(f, dst[f]) for f in ids[:k] if fields[f]["ty"] in DROPPABLE and dst[f] is not None)
+                if not res.startswith("panic"):
+                    hits.append(("C16", f"clone_from with a panicking field clone returned {res}", li))
+                elif sorted(drops) != want:
+                    hits.append(("C16", f"panic in the clone of field {fields[ids[k]]['name']} during clone_from: destroyed {sorted(drops)}, the previous contents of the fields assigned so far were {want}", li))
+                for f in ids[:k]:
+                    x = sst[f]
+                    if x is not None and fields[f]["ty"] in DROPPABLE and fields[f]["ty"] not in ZST:
+                        x = str(int(x) + 1000000)
+                    dst[f] = x
+                    if x is not None:
+                        born(f, x)
+                cloned.add(int(t[1]))
             elif op == "clonefrom":
                 dv, dst = regs[int(t[1])]; sv, sst = regs[int(t[2])]
                 # clone-assignment destroys the target's previous contents exactly once (and nothing else)
@@ -506,7 +524,7 @@ def prop_of_op(request):
     k = t[1] if len(t) > 1 and t[0] == "x" else (t[0] if t else "")
     if k in ("serde", "debad"):
         return "C15"
-    if k in ("clone", "clonefrom", "clonebomb"):
+    if k in ("clone", "clonefrom", "clonebomb", "clonefrombomb"):
         return "C16"
     if k == "conv":
         return "C05"
